@@ -61,6 +61,7 @@ func (c *c18) Cases(tier string, seed int64) []core.Case {
 			for _, op := range []string{"repair", "repair-dc"} {
 				cs = append(cs, core.MkCase(fmt.Sprintf("%s-%s-unwritable-target-s%d", f, op, s), c18Params{r.Int63(), f, op, "unwritable-target", "seam", false}))
 			}
+			cs = append(cs, core.MkCase(fmt.Sprintf("%s-encoder-retry-s%d", f, s), c18Params{r.Int63(), f, "encoder-retry", "inputs", "seam", false}))
 			cs = append(cs, core.MkCase(fmt.Sprintf("%s-create-s%d", f, s), c18Params{r.Int63(), f, "create", "inputs", "seam", false}))
 			for _, nb := range []int{2, 4, 5, 6} {
 				// block counts that are not 2^k-1 end in a partial last volume
@@ -432,6 +433,16 @@ func (c *c18) Run(cs core.Case) core.Result {
 	var p c18Params
 	core.Decode(cs, &p)
 	r := core.NewR(cs)
+	if p.Op == "encoder-retry" {
+		// a read fails (the file is away) while one Encoder loads the inputs;
+		// the fault goes away and the SAME Encoder loads again: what it then
+		// writes must be what an undisturbed Create writes
+		rng := rand.New(rand.NewSource(p.Seed))
+		for k := 0; k < 6; k++ {
+			encoderHistoryDifferential(r, p.Fmt, "retry-after-missing-input", "rerun-differs-from-fault-free-run|create", rng)
+		}
+		return r.Done()
+	}
 	w, err := newC18World(p.Fmt, p.Seed, p.State, p.Op == "create")
 	if w != nil {
 		defer w.close()
